@@ -228,6 +228,10 @@ func runHistory(o *options, idx int) sums {
 				h.cid[k] = ecs.ComponentID[Child](h.w)
 			case kArr:
 				h.cid[k] = ecs.ComponentID[ArrComp](h.w)
+			case kStrOnly:
+				h.cid[k] = ecs.ComponentID[StrOnly](h.w)
+			case kBig:
+				h.cid[k] = ecs.ComponentID[BigComp](h.w)
 			}
 		}
 	})
